@@ -193,29 +193,38 @@ class Terms(object):
         function's terms: the nested function's parameters are replaced by
         the arguments of its (single) call site, free names resolve at that
         call.  Returns an object with term()/cond()/all_facts()."""
+        views = self.inners(nested)
+        if len(views) != 1:
+            raise AnalysisError("nested helper %s is called %d times" % (
+                nested.name, len(views)))
+        return views[0]
+
+    def inners(self, nested):
+        """One view (see inner) per call site of the nested function."""
         calls = [c for c in ast.walk(self.fn) if isinstance(c, ast.Call) and
                  isinstance(c.func, ast.Name) and c.func.id == nested.name
                  and not _inside_fn(c, nested)]
-        if len(calls) != 1:
-            raise AnalysisError("nested helper %s is called %d times" % (
-                nested.name, len(calls)))
-        call = calls[0]
-        owner = _enclosing_fn(call)
-        host = self if owner is self.fn else self.inner(owner)
-        node = host.cfg.node_containing(call) if host is self else \
-            host.t.cfg.node_containing(call)
-        a = nested.args
-        names = [x.arg for x in a.posonlyargs + a.args]
-        if a.vararg or a.kwarg or len(call.args) > len(names):
-            raise AnalysisError("cannot bind call of %s" % nested.name)
-        sub = {}
-        for nm, arg in zip(names, call.args):
-            sub[nm] = host.term(arg, node)
-        for k in call.keywords:
-            sub[k.arg] = host.term(k.value, node)
-        outer = (host if host is self else host.t, node)
-        t = Terms(nested, helpers=self.helpers, outer=outer, pure=self.pure)
-        return _Inner(t, sub, call, host)
+        out = []
+        for call in calls:
+            owner = _enclosing_fn(call)
+            hosts = [self] if owner is self.fn else self.inners(owner)
+            for host in hosts:
+                node = host.cfg.node_containing(call)
+                a = nested.args
+                names = [x.arg for x in a.posonlyargs + a.args]
+                if a.vararg or a.kwarg or len(call.args) > len(names):
+                    raise AnalysisError("cannot bind call of %s" %
+                                        nested.name)
+                sub = {}
+                for nm, arg in zip(names, call.args):
+                    sub[nm] = host.term(arg, node)
+                for k in call.keywords:
+                    sub[k.arg] = host.term(k.value, node)
+                outer = (host if host is self else host.t, node)
+                t = Terms(nested, helpers=self.helpers, outer=outer,
+                          pure=self.pure)
+                out.append(_Inner(t, sub, call, host))
+        return out
 
     def search_loop(self):
         """If this function is a search loop -- ``for x in it: if c: return
@@ -1069,6 +1078,15 @@ def owner_terms(T, construct):
     if owner is T.fn:
         return T
     return T.inner(owner)
+
+
+def owner_views(T, construct):
+    """Like owner_terms, but one view per call site when the construct lies
+    in a nested helper that is called several times."""
+    owner = _enclosing_fn(construct)
+    if owner is T.fn:
+        return [T]
+    return T.inners(owner)
 
 
 def _owner(n, fn):
